@@ -108,6 +108,26 @@ pub fn exercise(files: &[(&str, &[u8])], root: &str) -> Outcome {
                     running += p.amount.clone();
                     sink += format!("{} {}", p.amount.as_inline_display(), running.as_inline_display()).len();
                 }
+                // date ranges in every order (open, proper, empty, inverted) around the dates of the file
+                {
+                    let dates: Vec<chrono::NaiveDate> = l.transactions().map(|t| t.date).collect();
+                    if let (Some(lo), Some(hi)) = (dates.iter().min().copied(), dates.iter().max().copied()) {
+                        let mid = dates[dates.len() / 2];
+                        let bounds = [None, Some(lo), Some(mid), hi.succ_opt()];
+                        for s in bounds {
+                            for e in bounds {
+                                match l.balance(&ctx, &BalanceQuery { conversion: None, date_range: DateRange { start: s, end: e } }) {
+                                    Ok(b) => sink += b.into_owned().into_vec().len(),
+                                    Err(e) => {
+                                        if chain_text(&e).trim().is_empty() {
+                                            return Outcome::violation("balance-range/error-without-message", "range balance failed with an empty message");
+                                        }
+                                    }
+                                }
+                            }
+                        }
+                    }
+                }
                 let d = oka::date(2024, 6, 1);
                 for name in ["USD", "\u{65e5}", "A:b"] {
                     if let Some(c) = ctx.commodity(name) {
@@ -635,6 +655,80 @@ fn run(ctx: &mut Ctx) {
                         }
                     }
                     Outcome::pass(format!("pump/{}", kind))
+                },
+            );
+        }
+    }
+    // price graphs through `balance -X` / `primitive eval -X`: a run of n tied "diamonds" (H0 -> A0|B0 -> H1 -> A1|B1 -> ...,
+    // every quote on the same day, both branches with the same rates 2 x 0.5, so that values stay in range: 2^n equally ranked chains), a chain of n commodities,
+    // a star of n commodities around the target, a complete graph on n commodities
+    for kind in ["tied-diamonds", "long-chain", "star", "complete-graph"] {
+        let ns: &[usize] = match kind {
+            "complete-graph" => ctx.tier.pick(&[2usize, 5, 10, 20][..], &[2usize, 5, 10, 20, 40][..]),
+            _ => ctx.tier.pick(&[1usize, 5, 10, 20, 40, 100][..], &[1usize, 5, 10, 20, 40, 100, 400][..]),
+        };
+        for &n in ns {
+            if !ctx.next_is_mine() {
+                ctx.skip_cases(1);
+                continue;
+            }
+            let tick_ctx: *const Ctx = ctx;
+            let tick = move || unsafe { (*tick_ctx).tick() };
+            let path = dir.join(format!("prices-{}.ledger", ctx.shard));
+            let dbpath = dir.join(format!("prices-{}.db", ctx.shard));
+            ctx.case(
+                || format!("[real binary: balance -X, balance -X --historical, primitive eval -X] price graph {} with n = {}", kind, n),
+                || {
+                    let name = |p: &str, i: usize| format!("{}{}", p, letters(i));
+                    let mut db = String::new();
+                    let (hold, target): (String, String) = match kind {
+                        "tied-diamonds" => {
+                            for i in 0..n {
+                                db.push_str(&format!("P 2024/01/01 {} 2 {}\nP 2024/01/01 {} 2 {}\nP 2024/01/01 {} 0.5 {}\nP 2024/01/01 {} 0.5 {}\n", name("H", i), name("A", i), name("H", i), name("B", i), name("A", i), name("H", i + 1), name("B", i), name("H", i + 1)));
+                            }
+                            (name("H", 0), name("H", n))
+                        }
+                        "long-chain" => {
+                            for i in 0..n {
+                                db.push_str(&format!("P 2024/01/01 {} 1.01 {}\n", name("H", i), name("H", i + 1)));
+                            }
+                            (name("H", 0), name("H", n))
+                        }
+                        "star" => {
+                            for i in 1..=n {
+                                db.push_str(&format!("P 2024/01/01 {} 2 {}\n", name("H", i), name("H", 0)));
+                            }
+                            (name("H", n), name("H", 1))
+                        }
+                        _ => {
+                            for i in 0..n {
+                                for j in i + 1..n {
+                                    db.push_str(&format!("P 2024/01/01 {} 2 {}\n", name("H", i), name("H", j)));
+                                }
+                            }
+                            (name("H", 0), name("H", n - 1))
+                        }
+                    };
+                    let text = format!("2024/01/02 hold\n  Assets  10 {}\n  Equity\n", hold);
+                    std::fs::write(&path, &text).expect("write");
+                    std::fs::write(&dbpath, &db).expect("write");
+                    let (p, d) = (path.to_string_lossy().to_string(), dbpath.to_string_lossy().to_string());
+                    let amount = format!("1 {}", hold);
+                    let cmds: [Vec<&str>; 3] = [
+                        vec!["balance", "-X", &target, "--price-db", &d, "--now", "2024-02-01", &p],
+                        vec!["balance", "-X", &target, "--historical", "--price-db", &d, "--now", "2024-02-01", &p],
+                        vec!["primitive", "eval", "--date", "2024-02-01", "-X", &target, "--price-db", &d, "-f", &p, &amount],
+                    ];
+                    for cmd in cmds.iter() {
+                        let (k, _o, e) = run_binary(cmd, Duration::from_secs(15), &tick);
+                        if let Some(v) = judge_binary(&k, e) {
+                            return match v.verdict {
+                                crate::fw::Verdict::Violation { sig, detail } => Outcome::violation(format!("{}/{}/price-graph-{}", sig, cmd[0], kind), detail),
+                                _ => v,
+                            };
+                        }
+                    }
+                    Outcome::pass(format!("price-graph/{}", kind))
                 },
             );
         }
